@@ -70,6 +70,11 @@ def cases(draw, closed_only, allow_verify):
         else:
             case["loose"] = [*case["loose"], big]
             case["request"] = sorted({*case["request"], ntrees + len(case["loose"]) - 1})
+    # the destination is NOT closed to begin with: file objects of delivered directories removed afterwards
+    # (lost objects, partial gc) while the .dir object stays; only without a destination index (with one the
+    # presence of the .dir vouches for its files by design) and only for the truthfulness check
+    case["dst_holes"] = sorted(draw(st.sets(st.integers(0, 11), max_size=2))) \
+        if not closed_only and draw(st.integers(0, 2)) == 1 else []
     # requested ids carry obj_name labels (as DVC's outputs produce them)
     case["named"] = draw(st.booleans())
     # kind of the injected upload failure (OSError subclass is chosen by errno)
@@ -213,6 +218,18 @@ def execute(case, ctx, d, monitor_closure=True):  # noqa: C901, PLR0912, PLR0915
             if case.get("other_handle") else dst
         for idx in case["dst_files"]:
             transfer(pre_src, dst_other, {HashInfo("md5", file_ids[idx % len(file_ids)])}, shallow=True, **ikw)
+    o.holes = set()
+    if case.get("dst_holes") and not case["index"]:
+        present = ref.walk_store(dst_root)[0]
+        listed = sorted({f for t in tops if t["isdir"] and t["oid"] in present for f in t["files"] if f in present})
+        for i in case["dst_holes"]:
+            if listed:
+                oid = listed[i % len(listed)]
+                if oid in present and oid not in o.holes:
+                    os.chmod(present[oid], 0o644)
+                    os.unlink(present[oid])
+                    o.holes.add(oid)
+        dst._dirs = None
     o.wiped = False
     if case.get("wipe") and ref.store_ids(dst_root):
         # external wipe of the destination (remote gc / bucket emptied); a destination index survives
@@ -411,6 +428,8 @@ def classes_of(case, o):
     cl = [f"src={case['src_kind']}", f"dst={case['dst_kind']}", f"form={case['form']}"]
     if case["index"]:
         cl.append("dest-index")
+    if getattr(o, "holes", None):
+        cl.append("destination-has-dir-without-some-files")
     if case.get("named") and not o.via_push:
         cl.append("request-ids-carry-obj_name")
     if case.get("hardlink") and not o.via_push:
